@@ -11,6 +11,9 @@ plan('C12',
           'counters: AtomicCount and Atomic<int|Long|double> with known per-thread sums',
      jobs=[
          Job(H, 'serial', 'asan', quick=140, thorough=700, shards=(10, 16), params=dict(ops2=3, maxsched=800), tparams=dict(ops2=4, maxsched=3000), batch=7, case_timeout=300),
+         Job(H, 'chain', 'asan', quick=600, thorough=20000, shards=(3, 6), batch=100),
+         Job(H, 'chain', 'tsan', quick=150, thorough=3000, shards=(2, 4), batch=25, leakcheck=False),
+         Job(H, 'chain', 'plain', quick=1200, thorough=40000, shards=(2, 4), batch=300),
          Job(H, 'serial_counters', 'asan', quick=16, thorough=200, shards=(4, 8), params=dict(maxsched=400), tparams=dict(maxsched=5000), batch=4, case_timeout=300),
          Job(H, 'stress', 'tsan', quick=14, thorough=70, shards=(4, 4), params=dict(threads=16, ops=15000), tparams=dict(ops=100000), weight=4, batch=1, case_timeout=300, leakcheck=False),
          Job(H, 'stress', 'asan', quick=14, thorough=70, shards=(4, 4), params=dict(threads=16, ops=50000), tparams=dict(ops=400000), weight=4, batch=7, case_timeout=300),
